@@ -8,6 +8,7 @@ import (
 	"mime"
 	"os"
 	"path"
+	"strings"
 
 	"verif/corpus"
 	"verif/sim"
@@ -91,7 +92,7 @@ func c12Case(env *Env, tape *sim.Tape) *CaseOut {
 	partMode := tape.Draw(2)
 	mask := uint64(tape.Draw(1 << 30))
 	ctMode := tape.Draw(6)
-	uriMode := tape.Draw(5)
+	uriMode := tape.Draw(6)
 	clMode := tape.Draw(2)
 	statusMode := tape.Draw(3)
 	useBytes := tape.Draw(2) == 1
@@ -177,6 +178,8 @@ func c12Case(env *Env, tape *sim.Tape) *CaseOut {
 			op.RequestURI = "/a.b/file.min" + ext
 		case 4:
 			op.RequestURI = "/file" + ext
+		case 5:
+			op.RequestURI = "/assets/file" + ext + "?v=3&x=a.b" // the request path is what is before '?'
 		}
 		if ctMode == 4 || ctMode == 5 {
 			op.RequestURI = "/misleading" + mtExt[other]
@@ -187,7 +190,12 @@ func c12Case(env *Env, tape *sim.Tape) *CaseOut {
 		op.Status = []int{0, 200, 404}[statusMode]
 		expectMT = op.ContentType
 		if expectMT == "" {
-			expectMT = mime.TypeByExtension(path.Ext(op.RequestURI))
+			// "falling back to the request path extension": the path, not the query
+			p := op.RequestURI
+			if i := strings.IndexByte(p, '?'); i >= 0 {
+				p = p[:i]
+			}
+			expectMT = mime.TypeByExtension(path.Ext(p))
 		}
 	}
 
